@@ -14,7 +14,7 @@ export VERIF_SEED="${VERIF_SEED:-1}"
 "$VERIF/build.sh" "$ID" || { echo "build failed (infrastructure, not a violation)" >&2; exit 2; }
 
 if [ "$TIER" = "thorough" ]; then WD=5400; else WD=600; fi
-BIN="$VERIF/bin/visim"
+BIN="${VISIM_BIN:-$VERIF/bin}/visim"
 timeout -k 10 "$WD" "$BIN" check "$ID" --tier "$TIER" --seed "$VERIF_SEED"
 rc=$?
 if [ $rc -eq 124 ] || [ $rc -eq 137 ]; then
